@@ -517,7 +517,7 @@ def run(ctx, replay_lines=None):
         evs = w[1].split()
         alone_evs = [split_out(alone.get((si, fi), "CRASH"))[0].split() if alone.get((si, fi), "CRASH") != "CRASH" else None
                      for fi in range(len(t["forms"]))]
-        if len(evs) != len(t["forms"]) or any(a is None or len(a) != 1 for a in alone_evs):
+        if len(evs) != len(t["forms"]) or any(a is None or len(a) != 1 or "unexpected_end_of_source" in a[0] for a in alone_evs):
             continue      # a form that is not exactly one event (value or self-contained error): the 1-1 alignment is lost, skip
         for fi, f in enumerate(t["forms"]):
             aev = alone_evs[fi]
